@@ -347,3 +347,90 @@ ARG_TYPES = {
     "config": r"^&tauri_typegen::(interface::config::)?GenerateConfig$",
     "events": r"^&\[tauri_typegen::(models::)?EventInfo\]$",
 }
+
+
+# ---------------------------------------------------------------------------------------------------------------- path-wise constants
+def enumerate_paths(f, target_bb, max_paths=256, start=0):
+    """acyclic block paths start -> target_bb over normal edges: list of [(block, label taken to leave it)...] ending with (target_bb, None)"""
+    out = []
+    can_reach = {target_bb}
+    grew = True
+    while grew:
+        grew = False
+        for b in range(len(f.blocks)):
+            if b not in can_reach and any(y in can_reach for (_, y) in f.succ_edges(b)):
+                can_reach.add(b)
+                grew = True
+    stack = [(start, [])]
+    while stack and len(out) < max_paths:
+        b, path = stack.pop()
+        if b == target_bb:
+            out.append(path + [(b, None)])
+            continue
+        for (lab, y) in f.succ_edges(b):
+            if y in can_reach and all(y != pb for (pb, _) in path) and y != b:
+                stack.append((y, path + [(b, lab)]))
+    return out
+
+
+def path_int_env(f, path):
+    """integer constants known along one path: {local: int} after the last block; also the list of (block, Call, [arg ints or None]) met and
+    the list of (cond origin, outcome) taken.  Understands const assignment, copies, checked/unchecked Add/Sub with known operands and the
+    `.0` of a checked-arithmetic pair."""
+    env = {}
+    pairs = {}
+    calls = []
+    conds = []
+
+    def val(op):
+        if not isinstance(op, dict):
+            return None
+        c = op.get("const")
+        if c is not None:
+            return c.get("int") if isinstance(c.get("int"), int) else None
+        pl = op.get("copy") or op.get("move")
+        if pl is None:
+            return None
+        if not pl.get("p"):
+            return env.get(pl["l"])
+        if len(pl["p"]) == 1 and pl["p"][0].get("k") == "field" and pl["p"][0].get("i") == 0 and pl["l"] in pairs:
+            return pairs[pl["l"]]
+        return None
+    for (b, lab) in path:
+        blk = f.blocks[b]
+        for st in blk["stmts"]:
+            lhs = st.get("lhs")
+            if lhs is None or lhs.get("p"):
+                continue
+            rv = st.get("rv") or {}
+            k = rv.get("k")
+            env.pop(lhs["l"], None)
+            pairs.pop(lhs["l"], None)
+            if k in ("use", "cast"):
+                v = val(rv["op"])
+                if v is not None:
+                    env[lhs["l"]] = v
+            elif k == "bin" and rv["op"] in ("Add", "Sub", "AddUnchecked", "SubUnchecked", "AddWithOverflow", "SubWithOverflow"):
+                a, c2 = val(rv["a"]), val(rv["b"])
+                if a is not None and c2 is not None:
+                    r = a + c2 if rv["op"].startswith("Add") else a - c2
+                    if rv["op"].endswith("WithOverflow"):
+                        pairs[lhs["l"]] = r
+                    else:
+                        env[lhs["l"]] = r
+        t = blk["term"]
+        if t["k"] == "call":
+            c = f.call_at(b)
+            calls.append((b, c, [val(a) for a in t["args"]]))
+            if not t["dest"].get("p"):
+                env.pop(t["dest"]["l"], None)
+        if lab is not None and t["k"] == "switch":
+            o, outcome = f.cond_struct(b, lab)
+            # a comparison whose operands are known on this path
+            pl = t["discr"].get("copy") or t["discr"].get("move")
+            ds = f.defs.get(pl["l"], []) if pl and not pl.get("p") else []
+            cmpv = None
+            if len(ds) == 1 and ds[0][0] == "stmt" and ds[0][3]["k"] == "bin" and ds[0][3]["op"] in ("Lt", "Le", "Gt", "Ge", "Eq", "Ne"):
+                cmpv = (ds[0][3]["op"], ds[0][3]["a"], val(ds[0][3]["a"]), ds[0][3]["b"], val(ds[0][3]["b"]))
+            conds.append((b, o, outcome, cmpv))
+    return env, calls, conds
